@@ -325,7 +325,8 @@ def run_scenario(sc):
 # ---------------------------------------------------------------------------------------
 STATUS_LINES = ["<Idle|MPos:1.000,2.000,3.000|FS:100,0>", "T:200.5 /210.0 B:59.8 /60.0", "echo:busy: processing", "<Run|WPos:5.000,6.000,7.000|FS:1200,8000>",
                 "X:10.00 Y:20.00 Z:0.30 E:0.00", "[MSG:Pgm End]"]
-ERROR_LINES = ["error: 20", "Error:Printer halted. kill() called!", "ALARM:1", "!! Fatal", "error:Bad number format"]
+ERROR_LINES = ["error: 20", "Error:Printer halted. kill() called!", "ALARM:1", "!! Fatal", "error:Bad number format",
+               "!! Move out of range", "ALARM", "error 5", "Error"]
 
 
 def gen_scenario(rng, thorough):
